@@ -121,3 +121,33 @@ def _m_same_table(pid, v, context):
         return False
     rel = _rel_of(context)
     return rel is not None and same_table_twice_in_from(rel)
+
+
+@matcher("projection_past_deduplication")
+def _m_proj_dedup(pid, v, context):
+    if pid == "C04":
+        ex, nw = context.get("existing"), context.get("new")
+        return v.get("kind") == "rows" and ex is not None and ex[0] == "dedup" and nw[0] == "proj"
+    if pid == "C03":
+        fn = context.get("counterfactual") if isinstance(context, dict) else None
+        return bool(fn and fn("projection_past_deduplication"))
+    return False
+
+
+def repair_projection_past_deduplication():
+    """Context manager: in-process counterfactual repair - Projection.commute refuses Deduplication."""
+    from lsst.daf.relation import Deduplication, Projection, UnaryCommutator
+
+    orig = Projection.commute
+
+    def commute(self, current):
+        if isinstance(current.operation, Deduplication):
+            return UnaryCommutator(
+                first=None, second=current.operation, done=False, messages=("counterfactual repair",)
+            )
+        return orig(self, current)
+
+    return patched(Projection, "commute", commute)
+
+
+REPAIRS = {"projection_past_deduplication": repair_projection_past_deduplication}
